@@ -398,7 +398,11 @@ func main() {
 			fmt.Fprintln(os.Stderr, err)
 			os.Exit(2)
 		}
-		if c.Kind == "transfer" {
+		if c.Kind == "transfer-data" {
+			var tc transferCase
+			lib.LoadReplay(o.Replay, &tc)
+			runTransferData(run, tc.Seed, tc.Typ == "true")
+		} else if c.Kind == "transfer" {
 			var tc transferCase
 			lib.LoadReplay(o.Replay, &tc)
 			runTransfer(run, tc.Seed, tc.Typ)
@@ -443,6 +447,9 @@ func main() {
 		runTransfer(run, rng.U64()%1000000, []string{"keyvalue", "keyvalue", "roi"}[i%3])
 	}
 	closeDst()
+	// TransferData: the whole store onto a fresh one, unfiltered and with a version list
+	runTransferData(run, rng.U64()%1000000, false)
+	runTransferData(run, rng.U64()%1000000, true)
 	// instance ids at byte boundaries (0xFF -> 0x100): the source key range is built from id and id+1
 	runBoundaryIDs(run)
 	run.Finish("c19case",
